@@ -44,6 +44,10 @@ def fileKind (fs : FS) : Op → Bool
 def allFileB (s : Sys) (ops : List Op) : Bool :=
   (ops.foldl (fun (acc : FS × Bool) op => ((kernelOp acc.1 s.k op).1, acc.2 && validOp acc.1 op && fileKind acc.1 op)) (s.fs, true)).2
 
+/-- executable twin of the hypothesis of `burst_flat`: valid operations, none removing the watched root -/
+def allValidNoRootB (s : Sys) (ops : List Op) : Bool :=
+  (ops.foldl (fun (acc : FS × Bool) op => ((kernelOp acc.1 s.k op).1, acc.2 && validOp acc.1 op && (op != .rmdir ["W"]))) (s.fs, true)).2
+
 /-- every operation of the burst is valid when it is issued and of a simple kind (executable twin of the hypothesis of
     `burst_simple`; the validity of an operation only depends on the file system, which only the kernel side changes) -/
 def allSimpleB (s : Sys) (ops : List Op) : Bool :=
